@@ -763,14 +763,14 @@ type fwReplay struct {
 
 // heavyFWCase is the deterministic probe shape of findingForwardTear.
 func heavyFWCase() fwCase {
-	return fwCase{NSubs: 1, Pubs: [][]int{{600, 600, 600}, {600, 600}},
+	return fwCase{NSubs: 1, LeaderSub: "same", Pubs: [][]int{{600, 600, 600}, {600, 600}},
 		Writers: [][]fwBurst{{{N: 40, Size: 60000, Pipe: true}, {N: 40, Size: 60000, Pipe: true}}}}
 }
 
 func TestC10_FollowerForward(t *testing.T) {
 	c := ev.New("C10", "follower", "exploration")
 	t.Cleanup(c.Flush)
-	c.Rule("a leader and a caught-up follower (both in-process, the follower attached through a capturing TCP proxy); 1-2 subscribers on the follower (SUBSCRIBE / PSUBSCRIBE) and a reference subscriber on the leader, all acknowledged before any traffic; on the leader 1-2 publishers send pipelined PUBLISH batches of 1-600 while 1-2 writers send bursts of 1-40 POINT writes (fence-triggering when a SETCHAN fence exists) or STRING values of 10 B-60 KB, mostly pipelined. Oracle: (1) at quiescence every byte the leader sent on every follower connection parses as whole RESP values (the replication stream is never torn by forwarded PUBLISH frames), (2) the follower returns to caught_up, (3) every subscriber received every PUBLISH exactly once in per-publisher order before the sentinel. Non-trivial: a pipelined batch of at least 40 PUBLISHes runs while a writer logs a command or pipelined burst larger than the 8 KB chunk the log tail is streamed in (while that shape is excluded as a known finding: a batch of at least 40 PUBLISHes is forwarded over a link that just carried the writers' log); distinct by generated case.")
+	c.Rule("a leader and a caught-up follower (both in-process, the follower attached through a capturing TCP proxy); 1-2 subscribers on the follower (SUBSCRIBE / PSUBSCRIBE), acknowledged before any traffic; the leader's own subscribers are a drawn dimension: nobody at all, one connection on an unrelated channel, one on the same channels (checked like the others), or one that keeps subscribing and unsubscribing (same or unrelated channel) while the traffic runs; on the leader 1-2 publishers send pipelined PUBLISH batches of 1-600 while 1-2 writers send bursts of 1-40 POINT writes (fence-triggering when a SETCHAN fence exists) or STRING values of 10 B-60 KB, mostly pipelined. Oracle: (1) at quiescence every byte the leader sent on every follower connection parses as whole RESP values (the replication stream is never torn by forwarded PUBLISH frames), (2) the follower returns to caught_up, (3) every subscriber received every PUBLISH exactly once in per-publisher order before the sentinel. Non-trivial: a pipelined batch of at least 40 PUBLISHes runs while a writer logs a command or pipelined burst larger than the 8 KB chunk the log tail is streamed in (while that shape is excluded as a known finding: a batch of at least 40 PUBLISHes is forwarded over a link that just carried the writers' log); distinct by generated case.")
 	c.Assume("forwarding to followers is best effort while the replication link is down; the check only demands delivery while the link is up, which it always is unless the server itself drops it")
 	env, err := startFW()
 	if err != nil {
